@@ -261,6 +261,15 @@ func C08(r *ev.Report) {
 func init() {
 	Parts["C08"] = Part{"C08", C08}
 	Replayers["C08"] = func(c Case) (bool, string) {
+		switch c["op"] {
+		case "bin", "equals", "unary", "predicate", "neighbour", "sqrt", "parse", "wide", "Add", "Subtract", "Multiply", "Square", "Invert", "Pow", "SetUInt64", "persist":
+			if c["op"] != "wide" || len(c["msg"]) == 0 {
+				if f, ok := Replayers["C12"]; ok && c["op"] != "hash" {
+					return f(c)
+				}
+			}
+		}
+
 		var (
 			key, detail string
 			fi, n       int
